@@ -604,6 +604,10 @@ Q(id='C15.sort_out_lines', props=['C15', 'C06'], cls='P', harness='c15_msf_fit.c
   mode='wrap', unwind=4, timeout=300, funcs=['sort_out_lines'], loops_files=['msa_alloc.shrink.loops', 'msa_io.shrink.loops', 'msa_io.lines.shrink.loops'], shrink=True,
   srcs=WRITER_SRCS, native_srcs=['lib/src/tldevel.c', 'lib/src/esl_stopwatch.c'] + WRITER_SRCS,
   trusted=[TRUST_MSG], assumptions=[A_WRAP, 'both keys of both lines range over the full int domain (loop-free harness: complete, not bounded)'])
+Q(id='C15.GCGMultchecksum', props=['C15'], cls='P', harness='c15_gcg.c', entry='h_c15_gcg_mult', defs=['-DKV_N=3'],
+  mode='dfcc', replace=['GCGchecksum'], unwind=6, timeout=600, replayable=False,
+  funcs=['GCGMultchecksum'], trusted=[TRUST_MSG, 'GCGchecksum replaced by its contract (proved in C15.GCGchecksum); its precondition (row buffer of alnlen + 1 bytes) is asserted at the call'],
+  assumptions=[A_NOFAIL, '3 rows (row loop unwound), row length symbolic 0..1000'])
 PROPS['C15'] = dict(
     level='other',
     level_text=('the three writers are run on symbolic finalised alignments with stdio captured; the captured bytes are checked against the format rules of the property (60-column wrapping, header lines, blocks with every sequence once, in order) '
